@@ -214,4 +214,17 @@ def copiesInto (t q : Taxon) (l : SL) : Nat := dupWeight id t q l
 def eventsInto (t q : Taxon) (l : SL) : Nat := dupWeight (fun _ => 1) t q l
 
 
+/-! ### what the species sections and the histories say about a species node (compared with pyham's tree profile at the
+    leaves; theorem `C09_leaf_profile_from_dataset`) -/
+
+/-- ids of the genes that a list of species sections declares for the species sitting at leaf `t` -/
+def declaredAtL (T : STree) (nm : Naming) (t : Taxon) (sp : List Species) : List String :=
+  sp.flatMap fun s => match resolveSpecies T nm s.name with
+    | .ok p => if p == t then s.genes.map (·.id) else []
+    | .error _ => []
+
+/-- declared genes of the species at `t` that no family references -/
+def unreferencedAtL (T : STree) (nm : Naming) (t : Taxon) (sp : List Species) (fams : List (Taxon × SL)) : List String :=
+  (declaredAtL T nm t sp).filter fun g => !(fams.flatMap fun f => genesOf f.2).contains g
+
 end Pyham
